@@ -22,14 +22,17 @@ def _build_and_run(arg):
             fh.write(text)
         os.rename(tmp, path)
     try:
-        exe = build.build_exe(tag, [path], extra=["-DNITRO_LOG_MIN_SEVERITY=" + loggen.SEVS[minsev]],
+        exe = build.build_exe(tag if tag != "memcheck" else "plain", [path],
+                              extra=["-DNITRO_LOG_MIN_SEVERITY=" + loggen.SEVS[minsev]],
                               name="logprog%d_%s" % (seed, loggen.SEVS[minsev]))
     except build.BuildError as e:
         return seed, minsev, "build", str(e)[-3000:], ""
     env = dict(os.environ)
     env.update(driver.SAN_ENV)
     try:
-        p = subprocess.run([exe], capture_output=True, env=env, timeout=900)
+        # "memcheck": the uninstrumented program under valgrind (use of uninitialised values)
+        p = subprocess.run((list(driver.MEMCHECK) if tag == "memcheck" else []) + [exe], capture_output=True, env=env,
+                           timeout=3600)
     except subprocess.TimeoutExpired:
         return seed, minsev, "watchdog", "", ""
     out = p.stdout.decode("latin-1")
@@ -39,8 +42,8 @@ def _build_and_run(arg):
     return seed, minsev, "ok", "", out
 
 
-def run_programs(seeds, tag="gasan"):
-    jobs = [(s, m, tag) for s in seeds for m in range(6)]
+def run_programs(seeds, tag="gasan", minima=range(6)):
+    jobs = [(s, m, tag) for s in seeds for m in minima]
     return list(optrun.pmap(_build_and_run, jobs))
 
 
